@@ -236,13 +236,9 @@ def run(chk, replay=None):
                     js = joining_script(t, scen, rep, same_identity=True)
                     if js:
                         fam.append(js)
-    if not replay:
-        for t in S.PEER_OF:
-            for rep in range(6 if thorough else 2):
-                scen += 1
-                ts = twin_script(t, scen, rep)
-                if ts:
-                    fam.append(ts)
+    # (the in-memory twins cells - one registration stopped between its steps by a gate while a second one of the same identity runs -
+    #  are no longer run: since fix 47c1df1 the table's bucket lock is blocking, a second registration would block the driver's only
+    #  thread for as long as the gate holds the first; the interleaving is sampled on the multi-threaded runtime below, mt_twins)
     if not replay:
         for t in ("PUB", "XPUB"):
             for rep in range(24 if thorough else 8):      # which branch the old reader task's select! takes is random
